@@ -96,7 +96,7 @@ class Context:
                     raise RuntimeError(f"fork server {hs} failed to start (does jade import from {REPO}?):\n{txt[-2000:]}")
 
     def as_dict(self):
-        return {"base": self.base, "bin": self.bin, "registry": self.registry, "zsocks": self.zsocks}
+        return {"base": self.base, "bin": self.bin, "registry": self.registry, "zsocks": self.zsocks, "zpids": [p.pid for p, _h, _s, _l in self.zprocs]}
 
     def close(self):
         for p, hs, sock, log in self.zprocs:
